@@ -35,6 +35,10 @@ var (
 
 func run(pass *analysis.Pass) (any, error) {
 	for node, m := range code.Matches(pass, checkErrorsNewSprintfQ) {
+		if !code.PackageNameResolves(pass, node.Pos(), "fmt", "fmt") {
+			report.Report(pass, node, "should use fmt.Errorf(...) instead of errors.New(fmt.Sprintf(...))", report.FilterGenerated())
+			continue
+		}
 		edits := code.EditMatch(pass, node, m, checkErrorsNewSprintfR)
 		// TODO(dh): the suggested fix may leave an unused import behind
 		report.Report(pass, node, "should use fmt.Errorf(...) instead of errors.New(fmt.Sprintf(...))",
